@@ -1,31 +1,67 @@
 (* C05 — decoder totality on arbitrary bytes. Statements only. *)
 From Coq Require Import List NArith ZArith.
 From TarsV Require Import Base.Hex Codec.Wire Codec.Skip Codec.Prim Codec.GenCodec Codec.Corr Codec.GenProofs
-  Codec.RoundTrip Codec.RoundTripProofs Codec.TotalProofs Codec.RoundTripExamples Codec.CorrT Gen.Schemas.
+  Codec.RoundTrip Codec.RoundTripProofs Codec.TotalProofs Codec.RoundTripExamples Codec.CorrT Codec.Alloc Codec.AllocProofs Gen.Schemas.
 Import ListNotations.
 Open Scope N_scope.
 
-(* full statement: no panic, no over-allocation (a count never exceeds the bytes left), no fuel exhaustion *)
-Definition C05_total_statement : Prop :=
-  forall (e : env) (sid : nat) (bs : list N), wf_env e = true ->
-  match decode e sid bs with DOk _ _ | DErr => True | _ => False end.
+(* NO PANIC, NO OVER-ALLOCATION - FULL STRENGTH: every schema environment (no well-formedness condition), every
+   struct type (vectors, byte vectors, fixed arrays, maps, nested and recursive struct types), every target, EVERY
+   byte string: the decoder never reaches a Go panic (the fixed-array index check is the only panic site left in
+   the model; the count check in front of the loop makes it unreachable) and no count larger than the bytes left
+   ever reaches an allocation (DHuge) *)
+Theorem C05_no_panic : forall e sid prior bs, ok_out (decode_into e sid prior bs).
+Proof. exact TotalProofs.decode_no_panic. Qed.
+(* the same for every member decoder, at any fuel *)
+Theorem C05_member_no_panic : forall e f t tag req prior bs, ok_out (dec_var f e tag req t prior bs).
+Proof. exact TotalProofs.dec_var_no_panic. Qed.
 
-(* REFUTED on the unchanged tree: the generated LIST branch calls make with the wire-supplied count *)
-Theorem C05_total_refuted :
-  let e := [[ {| ftag := 7; freq := true; fty := TVec TI8; fdef := None |} ]] in
-  decode e 0 [121; 0; 255] = DPanic site_makeslice /\ decode e 0 [121; 2; 64; 0; 0; 0] = DHuge.
-Proof. exact GenProofs.no_panic_refuted_witness. Qed.
-
-(* proved, for every schema environment, every struct type from which no vector or fixed array is reachable
-   (safe_ty: the sites of the recorded findings excluded), every target and EVERY byte string: decoding yields
-   a value or an error - no panic, no over-allocation, no fuel exhaustion *)
-Theorem C05_total_without_lists_partial : forall e n sid prior bs,
-  safe_ty n e (TStruct sid) = true -> (tneed n e (TStruct sid) <= 64)%nat ->
+(* TOTALITY: for every schema environment, every struct type with a finite type graph (vectors, byte vectors, fixed
+   arrays, maps and nested structs included - no safe_ty restriction any more), every target and EVERY byte string
+   decoding yields a value or an error: no panic, no over-allocation, no fuel exhaustion *)
+Theorem C05_total : forall e n sid prior bs,
+  tfin n e (TStruct sid) = true -> (tneed n e (TStruct sid) <= 64)%nat ->
   total_out (decode_into e sid prior bs).
 Proof. exact TotalProofs.decode_total. Qed.
-Theorem C05_no_panic_without_lists_partial : forall e n sid prior bs,
-  safe_ty n e (TStruct sid) = true -> ok_out (decode_into e sid prior bs).
-Proof. exact TotalProofs.decode_no_panic. Qed.
+(* the statement for every struct type, recursive ones included, kept visible: C05_no_panic proves all of it except
+   "the MODEL's fuel 4*len+64 suffices", which is proved for finite type graphs only (C05_fuel_sufficient); the
+   generated Go code has no fuel *)
+Definition C05_total_statement : Prop :=
+  forall (e : env) (sid : nat) (prior : val) (bs : list N), total_out (decode_into e sid prior bs).
+(* ... and the model's fuel is an artifact that a wide recursive struct type does exhaust
+   (RoundTripExamples.model_fuel_limit): for recursive types the outcome of the model is a value, an error, or
+   "out of fuel" (inconclusive; the correspondence treats it so, Codec/CorrT.v) - never a panic or DHuge *)
+Theorem C05_total_any_type_partial : forall e sid prior bs,
+  match decode_into e sid prior bs with DOk _ _ | DErr | DFuel => True | _ => False end.
+Proof. exact TotalProofs.decode_no_panic_cases. Qed.
+
+(* ALLOCATION LINEAR IN THE INPUT. [alloc_of e sid prior bs] (Codec/Alloc.v) adds up, over one ReadFrom of bs, every
+   count that passes the check in front of make([]T, count) plus every map entry inserted - on successful and on
+   failing decodes alike (strings and byte vectors are copied from bytes that are there: C06). For every schema
+   environment, every struct type with a finite type graph, every target and EVERY byte string it is at most
+   tneed(type) x the input length (tneed: the static constant of the type, <= 64 for the model's struct types) *)
+Theorem C05_alloc_linear : forall e n sid prior bs,
+  tfin n e (TStruct sid) = true -> (tneed n e (TStruct sid) <= 64)%nat ->
+  (alloc_of e sid prior bs <= tneed n e (TStruct sid) * length bs)%nat.
+Proof. exact AllocProofs.alloc_linear. Qed.
+(* the full statement - some constant for EVERY struct type - is FALSE for recursive types, of the repaired model and
+   of the repaired code (known finding decode/over-allocation/recursive-type): in struct Rec { int id; vector<Rec> kids }
+   every nesting level may announce as many kids as bytes are left; doubling the input (200 -> 400 bytes)
+   quadruples the allocation (2425 -> 9850 elements); the decode fails only at the innermost level *)
+Definition C05_alloc_linear_statement : Prop :=
+  forall e sid, exists c : nat, forall prior bs, (alloc_of e sid prior bs <= c * length bs + c)%nat.
+Theorem C05_alloc_recursive_refuted_witness :
+  N.of_nat (length (rec_attack 25 193)) = 200 /\ N.of_nat (alloc_of rec_env 0 (VInt 0) (rec_attack 25 193)) = 2425 /\
+  N.of_nat (length (rec_attack 50 393)) = 400 /\ N.of_nat (alloc_of rec_env 0 (VInt 0) (rec_attack 50 393)) = 9850 /\
+  decode rec_env 0 (rec_attack 50 393) = DErr.
+Proof. exact AllocProofs.alloc_recursive_quadratic. Qed.
+
+(* what the pinned code did on the witnesses of the recorded findings (Codec/Pinned.v: C05_total_pinned_refuted -
+   LIST count -1 panicked in make, 2^30 reached make) and what the repaired code does *)
+Theorem C05_hostile_count_witness :
+  let e := [[ {| ftag := 7; freq := true; fty := TVec TI8; fdef := None |} ]] in
+  decode e 0 [121; 0; 255] = DErr /\ decode e 0 [121; 2; 64; 0; 0; 0] = DErr.
+Proof. exact GenProofs.hostile_count_witness. Qed.
 
 (* proved, for every struct type with a finite type graph (vectors, arrays, maps, nested structs included) and
    EVERY byte string: the model's linear fuel 4*len+64 never runs out (termination of the modelled decoder with
@@ -41,14 +77,18 @@ Proof. exact (fun fuel => proj1 (TotalProofs.skip_fuel fuel)). Qed.
 (* instantiated on the schemas regenerated from the tree (per struct type; independent of their number and order) *)
 Theorem C05_code_schemas_fuel : forall sid prior bs, fits_model sid = true -> decode_into env0 sid prior bs <> DFuel.
 Proof. exact RoundTripExamples.env0_fuel. Qed.
-Theorem C05_code_schemas_total : forall sid prior bs, safe_ty 8 env0 (TStruct sid) = true -> fits_model sid = true ->
-  total_out (decode_into env0 sid prior bs).
+Theorem C05_code_schemas_no_panic : forall sid prior bs, ok_out (decode_into env0 sid prior bs).
+Proof. exact RoundTripExamples.env0_no_panic. Qed.
+Theorem C05_code_schemas_total : forall sid prior bs, fits_model sid = true -> total_out (decode_into env0 sid prior bs).
 Proof. exact RoundTripExamples.env0_total. Qed.
-Theorem C05_code_schemas_safe_examples :
-  forallb (fun sid => safe_ty 8 env0 (TStruct sid) && fits_model sid)
-          [sid_verifidl_Scalars; sid_endpointf_EndpointF; sid_authf_BasicAuthInfo; sid_authf_TokenKey; sid_statf_StatMicMsgHead] = true
-  /\ safe_ty 8 env0 (TStruct sid_requestf_RequestPacket) = false.
-Proof. exact RoundTripExamples.env0_safe_examples. Qed.
+Theorem C05_code_schemas_alloc_linear : forall sid prior bs, fits_model sid = true ->
+  (alloc_of env0 sid prior bs <= 64 * length bs)%nat.
+Proof. exact AllocProofs.env0_alloc_linear. Qed.
+Theorem C05_code_schemas_total_examples :
+  forallb fits_model [sid_requestf_RequestPacket; sid_requestf_ResponsePacket; sid_verifidl_Containers;
+                      sid_verifidl_Scalars; sid_endpointf_EndpointF; sid_authf_BasicAuthInfo; sid_authf_TokenKey;
+                      sid_statf_StatMicMsgHead] = true.
+Proof. exact RoundTripExamples.env0_total_examples. Qed.
 
 (* proved: the scalar layer of the decoder never panics or over-allocates, for all bytes *)
 Theorem C05_scalar_layer_safe : forall fuel tag req t prior bs,
@@ -60,13 +100,19 @@ Theorem C05_skip_depth_limit : forall fuel ty bs, (ty = tMAP \/ ty = tLIST \/ ty
   skip_field (S fuel) maxd ty bs = (SErr, bs).
 Proof. exact GenProofs.skip_depth_limit. Qed.
 
-Print Assumptions C05_total_refuted.
-Print Assumptions C05_total_without_lists_partial.
-Print Assumptions C05_no_panic_without_lists_partial.
+Print Assumptions C05_no_panic.
+Print Assumptions C05_member_no_panic.
+Print Assumptions C05_total.
+Print Assumptions C05_total_any_type_partial.
+Print Assumptions C05_alloc_linear.
+Print Assumptions C05_alloc_recursive_refuted_witness.
+Print Assumptions C05_hostile_count_witness.
 Print Assumptions C05_fuel_sufficient.
 Print Assumptions C05_skip_fuel_sufficient.
 Print Assumptions C05_code_schemas_fuel.
+Print Assumptions C05_code_schemas_no_panic.
 Print Assumptions C05_code_schemas_total.
-Print Assumptions C05_code_schemas_safe_examples.
+Print Assumptions C05_code_schemas_alloc_linear.
+Print Assumptions C05_code_schemas_total_examples.
 Print Assumptions C05_scalar_layer_safe.
 Print Assumptions C05_skip_depth_limit.
